@@ -3,8 +3,8 @@ _pc = importlib.util.spec_from_file_location("pool_common", os.path.join(os.path
 MOD = "consensus::pool::kani_c18"
 SPEC = {
     "property": "C18",
-    "level_text": "not registered: the pool-level harness c18_bundle (arbitrary subsets of certificates in slots 1 and 2, finality tracker informed through its real interface, then PoolImpl::recover_from_standstill via the recording channel) compiles, but its symbolic execution did not finish in 10 min (certificate / BitVec plumbing of get_certs)",
-    "level_note": "see DESIGN.md §6",
+    "level_text": "PARTIAL claim - the trigger on a pool that has finalized nothing. Bounded symbolic verification (Kani -> CBMC -> CaDiCaL) of the real PoolImpl::recover_from_standstill (with finalized_slot, get_final_certs, get_certs, get_own_votes and the finality tracker behind it) on a freshly constructed pool, i.e. before anything beyond genesis is finalized: the trigger does not panic (every Rust-level panic - the 'no final cert' assertion, unwrap, index, overflow - is a checked property), hands exactly one Standstill event to Votor, naming the slot after genesis, and the event carries exactly what the three collectors return (nothing). This is the state in which the trigger used to panic (fix 3331156): a reversal of that fix is reported by this harness. The bundle contents for pools that hold certificates (harnesses c18_bundle_genesis / _fast / _slow: slot 1 with fast-final / final / notar certificates, slot 2 with later certificates and an own vote) are written but NOT claimed: their symbolic execution exceeds the 20 min cap (1.3-1.8 M steps, cloning certificates into the bundle).",
+    "level_note": "Bounds: fresh pool, 2 validators, one call. Under Kani pool.rs is compiled without its async plumbing (bodies verbatim, see pool_common.py), PoolImpl::send_votor_event is a recording stub (the channel is outside), std / smallvec / tokio containers are bounded stand-ins; native replay runs the unmodified async code on the real containers. NOT claimed: bundle contents in non-empty pools, that the bundle passes validation at a receiver (C09 covers validation of certificates and votes as such), that a fresh node catches up from the bundle, Votor's forwarding (C05's c05_standstill_k2 covers 'always forwards').",
     "overlays": PC.OVERLAYS + [{"src": "C18/kani_c18.rs", "dest": "src/consensus/pool/kani_c18.rs", "decl_in": PC.POOL, "decl": "mod kani_c18;"},
                                {"src": "C04/kani_c04_pool.rs", "dest": "src/consensus/pool/kani_c04_pool.rs", "decl_in": PC.POOL, "decl": "mod kani_c04_pool;"}],
     # std Vec in pool.rs (the certificate / vote lists of the standstill bundle) -> typed contiguous stand-in: through the
@@ -14,14 +14,13 @@ SPEC = {
                   {"file": PC.SS, "pattern": r"^use std::sync::Arc;$", "replacement": "use std::sync::Arc;\n#[cfg(kani)]\nuse crate::verif_coll::tvec::{Vec, vec};", "count": 1, "required": True}] + PC.REDIRECTS,
     "coll_cap": 4,
     "functions": ["PoolImpl::recover_from_standstill", "PoolImpl::get_final_certs", "PoolImpl::get_certs", "PoolImpl::get_own_votes", "PoolImpl::finalized_slot", "FinalityTracker::mark_*"],
-    "bounds": "", "explanation": "", "assumptions": PC.ASSUMPTIONS, "trusted_base": [], "outside": [],
-    "harnesses": [{"name": n, "path": MOD, "tiers": t, "role": "standstill bundle/" + d, "stubs": [PC.SIGN_STUB, "log::max_level"], "covers": 1,
+    "bounds": "fresh pool (nothing finalized beyond genesis), 2 validators, one call of recover_from_standstill", "explanation": "One symbolic execution of the real trigger on the fresh pool with all Rust panics checked; the event handed to Votor is recorded by a stub of send_votor_event and compared with the output of the real collectors. Decided by Kani -> CBMC -> CaDiCaL.", "assumptions": PC.ASSUMPTIONS, "trusted_base": ["recording stub of PoolImpl::send_votor_event", "pool_common.py de-async rewriting and container stand-ins"], "outside": ["bundle contents in pools that hold certificates (harnesses exist, exceed the caps)", "validation of the bundle at a receiver, catching up from it", "Votor forwarding (C05)"],
+    "harnesses": [{"name": n, "path": MOD, "tiers": t, "role": "standstill bundle/" + d, "stubs": [PC.SIGN_STUB, "log::max_level", "consensus::pool::PoolImpl::send_votor_event"], "covers": 1,
                    "timeout": {"quick": 900, "thorough": 1800}, "mem_gb": 14, "cbmc_args": PC.CBMC,
                    "functions": ["PoolImpl::recover_from_standstill", "PoolImpl::{get_final_certs,get_certs,get_own_votes,finalized_slot,slot_state}", "FinalityTracker::{mark_notarized,mark_finalized,mark_fast_finalized,highest_finalized_slot}"],
                    "bounds": "2 validators; certificates held: " + d}
                   for (n, t, d) in [("c18_bundle_empty", ["quick", "thorough"], "none (fresh pool)"),
-                                    ("c18_bundle_genesis", ["quick", "thorough"], "slot 1: finalization only (nothing finalized); slot 2: notarization + own skip vote"),
-                                    ("c18_bundle_fast", ["quick", "thorough"], "slot 1: fast-finalization + notarization; slot 2: notarization, skip, own skip vote"),
-                                    ("c18_bundle_slow", ["thorough"], "slot 1: finalization + notarization; slot 2: skip")]],
-    "unclaimed": True,
+                                    ("c18_bundle_genesis", [], "slot 1: finalization only (nothing finalized); slot 2: notarization + own skip vote"),
+                                    ("c18_bundle_fast", [], "slot 1: fast-finalization + notarization; slot 2: notarization, skip, own skip vote"),
+                                    ("c18_bundle_slow", [], "slot 1: finalization + notarization; slot 2: skip")]],
 }
